@@ -728,6 +728,9 @@ func (v *FnVC) unop(fr *frame, st *State, x *ssa.UnOp) Val {
 		}
 		res := v.deref(st, a, et, reach)
 		v.childInvariants(fr, st, x, res, reach)
+		if g, isG := x.X.(*ssa.Global); isG {
+			v.assumeConstStringSet(g, res, st, reach)
+		}
 		return res
 	case token.NOT:
 		return Sc{Not(a.(Sc).T)}
@@ -984,4 +987,35 @@ func (v *FnVC) childInvariants(fr *frame, st *State, x *ssa.UnOp, res Val, reach
 		v.inTypeInv = false
 		v.sc.Assert(Implies(reach, body))
 	}
+}
+
+// assumeConstStringSet: m was just loaded from a package-level map that init fills from a literal and nothing else
+// writes (World.ConstStringSets): it is not nil and its key set is the literal's.
+func (v *FnVC) assumeConstStringSet(g *ssa.Global, m Val, st *State, guard Term) {
+	keys, ok := v.w.ConstStringSets()[g]
+	if !ok {
+		return
+	}
+	ms, ok := m.(Sc)
+	if !ok {
+		return
+	}
+	mt, ok := under(deref1(g.Type())).(*types.Map)
+	if !ok {
+		return
+	}
+	dom, _ := v.mapParts(st, mt, ms.T)
+	var alts []string
+	for _, k := range keys {
+		alts = append(alts, fmt.Sprintf("(= csk %s)", StrLit(k).S))
+	}
+	body := "false"
+	if len(alts) == 1 {
+		body = alts[0]
+	} else if len(alts) > 1 {
+		body = "(or " + strings.Join(alts, " ") + ")"
+	}
+	q := fmt.Sprintf("(forall ((csk String)) (! (= (select %s csk) %s) :pattern ((select %s csk))))", dom.S, body, dom.S)
+	v.sc.Assert(Implies(guard, And(Not(Eq(ms.T, tZero)), Term{q, SBool})))
+	v.note("package-level table " + g.Name() + " is only written by its initialiser (checked on the SSA): its keys are the literal's")
 }
